@@ -191,6 +191,28 @@ def finish(prop, tier, seed, level, results, dead, t0, m):
                         f"[{state}; attributed hits in this run: {hits}] {k['mechanism']}")
     for line in kf_lines:
         print(line)
+    # witnesses of repaired defects of this property: deterministic regression replays (a fixed entry suppresses
+    # nothing - if the defect returns, its witness is a violation again)
+    import glob
+    replayed = 0
+    for wpath in sorted(glob.glob(os.path.join(VERIF, 'witnesses', 'D*.json'))):
+        try:
+            w = json.load(open(wpath))
+        except Exception:  # noqa: BLE001
+            continue
+        if w.get('property') != prop or 'case' not in w or not w.get('engine'):
+            continue
+        st = run_witness({'kinds': []}, prop, os.path.relpath(wpath, VERIF))
+        if st['why'].startswith('witness run failed'):
+            dead.append((w.get('id'), st['why']))
+            continue
+        replayed += 1
+        for f in st['other']:
+            f['kind'] = f['kind']
+            f['detail'] = dict(f.get('detail') or {}, regression_of=w.get('id'))
+            f['hashseed'] = w.get('hashseed', 0)
+            violations.append(f)
+    counters['fixed_witnesses_replayed'] = replayed
     floors = getattr(m, 'FLOORS', {}).get(prop, {})
     floor_fail = [f'{k}={counters.get(k, 0)}<{v}' for k, v in floors.items() if counters.get(k, 0) < v]
     # replays
